@@ -29,3 +29,6 @@ chk("C13", "exploration", "reference-model monitor: ScanMin/ScanRange/ScanEq vs 
 chk("C14", "exploration", "differential decoding monitor: SQLite-written payload-length sweeps per page size + hand-built pages with non-minimal varints, same file read by SQLite and sqlittle",
     "Exhaustive in payload length 0..3*pagesize for 512/1024-byte pages (table, index, WITHOUT ROWID cells), threshold neighbourhoods for the other six page sizes, all integer serial widths at their boundaries, rowid/size/header/serial varints of 1..9 bytes (non-minimal ones via an independent encoder). Held on the cells read.",
     "SQLite 3.40.1 is the reference also for the hand-built files; files it rejects are skipped", "DESIGN.md 3 C14")
+chk("C15", "exploration", "exhaustive single-byte header mutation monitor over the pager hook + re-read under an open handle + real WAL / UTF-16 / legacy-format files",
+    "Every header byte x every value on a valid base of 3 (quick) / 8 (thorough) page sizes, classified must-refuse / must-accept-with-same-rows / either; header swapped under an open handle between two transactions; real SQLite-written WAL, UTF-16 and schema-format 1-4 files. Exhaustive over single-byte mutations, not over multi-byte combinations.",
+    "classification table follows the property text; in-memory pager stands in for the file for the byte sweep", "DESIGN.md 3 C15")
